@@ -232,7 +232,7 @@ func runEnv(in *sx.Node) (string, error) {
 	}
 	for _, o := range in.At(5).List {
 		if !isTransItem(o) {
-			if err := applyOp(root, o); err != nil {
+			if err := applyOp(root, loaded, o); err != nil {
 				return "", err
 			}
 			if err := snapshot("w"); err != nil {
